@@ -1,7 +1,121 @@
-/-  C04/Driver — line protocol front end (core-only).  Placeholder until the property is built. -/
+/-
+  C04/Driver — line protocol front end (core-only).
+    tree <srchex> <rawdump>    reply: model / spec verdict of the span + walk obligations on an accepted tree
+    junk <srchex> -            reply: total total -     (totality has no model content: no panic, positions in bounds)
+    early <stmt-tree>          reply: model / spec accept|reject by the early-error rules
+-/
 import OttoVerif.Base.Proto
+import OttoVerif.C04.Spec
+import OttoVerif.C04.Early
 namespace OttoVerif.C04.Driver
+open OttoVerif.C04 OttoVerif.Proto
 
-def handle (_ws : List String) : String := "bad-op"
+def kind? : String → Option Kind
+  | "ArrayLiteral" => some .ArrayLiteral | "AssignExpression" => some .AssignExpression | "BadExpression" => some .BadExpression
+  | "BinaryExpression" => some .BinaryExpression | "BooleanLiteral" => some .BooleanLiteral | "BracketExpression" => some .BracketExpression
+  | "CallExpression" => some .CallExpression | "ConditionalExpression" => some .ConditionalExpression | "DotExpression" => some .DotExpression
+  | "EmptyExpression" => some .EmptyExpression | "FunctionLiteral" => some .FunctionLiteral | "Identifier" => some .Identifier
+  | "NewExpression" => some .NewExpression | "NullLiteral" => some .NullLiteral | "NumberLiteral" => some .NumberLiteral
+  | "ObjectLiteral" => some .ObjectLiteral | "RegExpLiteral" => some .RegExpLiteral | "SequenceExpression" => some .SequenceExpression
+  | "StringLiteral" => some .StringLiteral | "ThisExpression" => some .ThisExpression | "UnaryExpression" => some .UnaryExpression
+  | "VariableExpression" => some .VariableExpression | "BadStatement" => some .BadStatement | "BlockStatement" => some .BlockStatement
+  | "BranchStatement" => some .BranchStatement | "CaseStatement" => some .CaseStatement | "CatchStatement" => some .CatchStatement
+  | "DebuggerStatement" => some .DebuggerStatement | "DoWhileStatement" => some .DoWhileStatement | "EmptyStatement" => some .EmptyStatement
+  | "ExpressionStatement" => some .ExpressionStatement | "ForInStatement" => some .ForInStatement | "ForStatement" => some .ForStatement
+  | "FunctionStatement" => some .FunctionStatement | "IfStatement" => some .IfStatement | "LabelledStatement" => some .LabelledStatement
+  | "ReturnStatement" => some .ReturnStatement | "SwitchStatement" => some .SwitchStatement | "ThrowStatement" => some .ThrowStatement
+  | "TryStatement" => some .TryStatement | "VariableStatement" => some .VariableStatement | "WhileStatement" => some .WhileStatement
+  | "WithStatement" => some .WithStatement | "Program" => some .Program | _ => none
+
+mutual
+/-- Polish-notation reader of `astx.RawDump` -/
+partial def readT (items : List String) : Option (T × List String) :=
+  match items with
+  | [] => none
+  | "_" :: r => some (.absent, r)
+  | "~" :: r => some (.tnil, r)
+  | h :: r =>
+    match h.splitOn "." with
+    | [k, a, b, l, n] => do
+      let k ← kind? k
+      let a ← int? a; let b ← int? b; let l ← int? l
+      let n ← n.toNat?
+      let (kids, r) ← readTS n r
+      pure (.node k a b l kids, r)
+    | _ => none
+partial def readTS (n : Nat) (items : List String) : Option (TS × List String) :=
+  if n = 0 then some (.nil, items) else do
+    let (t, r) ← readT items
+    let (ts, r) ← readTS (n - 1) r
+    pure (.cons t ts, r)
+end
+
+structure Acc where
+  n : Nat := 0
+  panics : Nat := 0
+  oob : Nat := 0
+  unnested : Nat := 0
+  sum : Nat := 0
+  emptySeq : Bool := false
+  emptyCase : Bool := false
+  emptyProg : Bool := false
+  switchOpen : Bool := false
+
+mutual
+/-- the same pre-order pass the Go harness makes over the live nodes (c04.go treeVerdict) -/
+partial def scan (srcLen : Int) (parent : Option (Int × Int)) (t : T) (acc : Acc) : Acc :=
+  match t with
+  | .absent | .tnil => acc
+  | .node k _ b _ kids =>
+    let acc := { acc with n := acc.n + 1 }
+    let acc := match k, kids with
+      | .SequenceExpression, .nil => { acc with emptySeq := true }
+      | .Program, .nil => { acc with emptyProg := true }
+      | .CaseStatement, ks => if ks.length < 2 then { acc with emptyCase := true } else acc
+      | .SwitchStatement, _ => if b = 0 then { acc with switchOpen := true } else acc
+      | _, _ => acc
+    match idx0 t, idx1 t with
+    | some i0, some i1 =>
+      let acc := { acc with sum := (acc.sum * 31 + i0.toNat * 131 + i1.toNat) % 1000000007 }
+      let acc := if i0 < 1 ∨ i1 > srcLen + 1 ∨ i0 > i1 then { acc with oob := acc.oob + 1 } else acc
+      let acc := match parent with
+        | some (p0, p1) => if i0 < p0 ∨ i1 > p1 then { acc with unnested := acc.unnested + 1 } else acc
+        | none => acc
+      scanList srcLen (some (i0, i1)) kids acc
+    | _, _ => scanList srcLen none kids { acc with panics := acc.panics + 1 }
+partial def scanList (srcLen : Int) (parent : Option (Int × Int)) (ts : TS) (acc : Acc) : Acc :=
+  match ts with
+  | .nil => acc
+  | .cons t r => scanList srcLen parent r (scan srcLen parent t acc)
+end
+
+def verdict (n enter nil_ : Nat) (seq : Bool) (panics oob unnested sum : Nat) : String :=
+  s!"accept:n={n},enter={enter},nil={nil_},seq={if seq then "ok" else "bad"},panic={panics},oob={oob},unnested={unnested},sum={sum}"
+
+def handleTree (srcHex dump : String) : String :=
+  match readT (dump.splitOn ",") with
+  | some (t, []) =>
+    let srcLen : Int := (srcHex.length - 1) / 2
+    let acc := scan srcLen none t {}
+    let evs := walk t
+    let ent := Spec.nonNilEnters evs
+    let nils := Spec.nilEnters evs
+    let seqOk := ent == Spec.nodes t && Spec.balanced evs []
+    let model := verdict acc.n ent.length nils seqOk acc.panics acc.oob acc.unnested acc.sum
+    let spec := verdict acc.n acc.n 0 true 0 0 0 acc.sum
+    let devs := (if nils > 0 then ["walk_typed_nil"] else [])
+      ++ (if acc.emptySeq then ["idx_empty_sequence"] else [])
+      ++ (if acc.emptyCase then ["idx_empty_case"] else [])
+      ++ (if acc.emptyProg then ["idx_empty_program"] else [])
+      ++ (if acc.switchOpen then ["switch_missing_brace"] else [])
+    model ++ " " ++ spec ++ " " ++ (if devs.isEmpty then "-" else ",".intercalate devs)
+  | _ => "bad-dump bad-dump -"
+
+def handle (ws : List String) : String :=
+  match ws with
+  | ["tree", src, dump] => handleTree src dump
+  | ["junk", _, _] => "total total -"
+  | "early" :: rest => Early.handle rest
+  | _ => "bad-op bad-op -"
 
 end OttoVerif.C04.Driver
